@@ -47,6 +47,31 @@ fn nth_perm(n: usize, mut k: usize) -> Vec<usize> {
     out
 }
 
+/// Returns the elements of `v` in an order chosen by the oracle (all `n!` orders for `n <= 4`,
+/// identity / reversal / rotations above). Used where okane collects the entries of a
+/// `std::collections::HashMap` that this module does not replace: whatever order the
+/// real map yields, some oracle choice reproduces it.
+pub fn permuted<T>(v: Vec<T>) -> Vec<T> {
+    let n = v.len();
+    if n < 2 {
+        return v;
+    }
+    let order: Vec<usize> = if n <= 4 {
+        nth_perm(n, ask(factorial(n)))
+    } else {
+        let k = ask(n + 1);
+        if k == 0 {
+            (0..n).collect()
+        } else if k == n {
+            (0..n).rev().collect()
+        } else {
+            (0..n).map(|i| (i + k) % n).collect()
+        }
+    };
+    let mut slots: Vec<Option<T>> = v.into_iter().map(Some).collect();
+    order.into_iter().map(|i| slots[i].take().unwrap()).collect()
+}
+
 pub struct HashMap<K, V> {
     items: Vec<(K, V)>,
     perm: RefCell<Option<Vec<usize>>>,
